@@ -438,4 +438,459 @@ theorem cacheIdent_inj_users {d p d' p' : List Char} (hd : Char.ofNat 0 ∉ d) (
     (h : cacheIdent (.user d p) = cacheIdent (.user d' p')) : d = d' ∧ p = p' :=
   append_sep_inj hd hd' h
 
+/-! ## envelopes -/
+
+theorem openBytes_some {t : Tok} {k : KeyId} {a : Bytes} {v : Nat} {p : Bytes} (h : openBytes t k a v = some p) :
+    ∃ n, t = .sealed k a v n p := by
+  cases t with
+  | raw bs => simp [openBytes] at h
+  | sealed k' a' v' n p' =>
+    simp only [openBytes] at h
+    split at h
+    · rename_i hc
+      obtain ⟨h1, h2, h3⟩ := hc
+      simp only [Option.some.injEq] at h
+      subst h1 h2 h3 h
+      exact ⟨n, rfl⟩
+    · cases h
+
+theorem decodeObs_observe {strict : Bool} {E : Wire} {w : Bytes} {t : Tok}
+    (h : decodeObs strict (E.observe w) = some t) : E.dec w = some t ∧ (strict = true → E.enc t = w) := by
+  unfold decodeObs Wire.observe at h
+  simp only at h
+  cases hd : E.dec w with
+  | none => rw [hd] at h; simp at h
+  | some t' =>
+    rw [hd] at h
+    simp only at h
+    split at h
+    · cases h
+    · rename_i hc
+      simp only [Option.some.injEq] at h
+      subst h
+      refine ⟨rfl, ?_⟩
+      intro hs
+      subst hs
+      simp only [Bool.true_and, Bool.not_eq_true', Bool.not_eq_false] at hc
+      simpa using hc
+
+/-- the only server-key envelopes an attacker can present are minted ones -/
+theorem known_server_sealed {minted : List Tok} {keys : List KeyId} {k a v n p}
+    (h : Known minted keys (.sealed k a v n p)) (hk : k ∉ keys) : Tok.sealed k a v n p ∈ minted := by
+  cases h with
+  | minted hm => exact hm
+  | ownSeal _ _ _ _ hin => exact absurd hin hk
+
+theorem mem_toks {sh : Shape} {z : Zstd} {key : KeyId} {W : World} {t : Tok} (h : t ∈ W.toks sh z key) :
+    (∃ cm ∈ W.cursors, t = cm.tok z key) ∨ (∃ km ∈ W.calls, t = km.tok sh z key) := by
+  unfold World.toks at h
+  rcases List.mem_append.mp h with h | h
+  · obtain ⟨cm, hc, e⟩ := List.mem_map.mp h; exact Or.inl ⟨cm, hc, e.symm⟩
+  · obtain ⟨km, hc, e⟩ := List.mem_map.mp h; exact Or.inr ⟨km, hc, e.symm⟩
+
+/-- token age test, as the property states it -/
+def Fresh (ttl : Nat) (now : Int) (t : Nat) : Prop := ttl = 0 ∨ now - (t : Int) ≤ (ttl : Int)
+
+theorem openCursorObs_ok {strict : Bool} {z : Zstd} {key : KeyId} {a : Bytes} {ttl : Nat} {now : Int} {o : WireObs}
+    {x : Bytes × Bytes} (h : openCursorObs strict z key a ttl now o = .ok x) :
+    ∃ t n sp plain, decodeObs strict o = some t ∧ t = .sealed key a Token.cursorTokenVersion n sp ∧
+      unpackTagged z sp = .ok plain ∧ unpackCursorPlain plain = .ok x ∧ ttlCheck .curExpired plain ttl now = .ok () := by
+  unfold openCursorObs at h
+  cases hd : decodeObs strict o with
+  | none => rw [hd] at h; cases h
+  | some t =>
+    rw [hd] at h; simp only at h
+    cases ho : openBytes t key a Token.cursorTokenVersion with
+    | none => rw [ho] at h; cases h
+    | some sp =>
+      rw [ho] at h; simp only at h
+      obtain ⟨n, ht⟩ := openBytes_some ho
+      cases hu : unpackTagged z sp with
+      | ok plain =>
+        rw [hu] at h; simp only at h
+        cases hc : unpackCursorPlain plain with
+        | ok r =>
+          rw [hc] at h; simp only at h
+          cases htl : ttlCheck .curExpired plain ttl now with
+          | ok u =>
+            rw [htl] at h; simp only at h
+            cases h
+            exact ⟨t, n, sp, plain, rfl, ht, hu, hc, by cases u; exact htl⟩
+          | reject _ => rw [htl] at h; cases h
+          | missingCall => rw [htl] at h; cases h
+          | decodeError => rw [htl] at h; cases h
+          | crash => rw [htl] at h; cases h
+        | reject _ => rw [hc] at h; cases h
+        | missingCall => rw [hc] at h; cases h
+        | decodeError => rw [hc] at h; cases h
+        | crash => rw [hc] at h; cases h
+      | reject _ => rw [hu] at h; cases h
+      | missingCall => rw [hu] at h; cases h
+      | decodeError => rw [hu] at h; cases h
+      | crash => rw [hu] at h; cases h
+
+theorem openCallObs_ok {strict : Bool} {z : Zstd} {key : KeyId} {a : Bytes} {ttl : Nat} {now : Int} {o : WireObs}
+    {x : Bytes × CallBody} (h : openCallObs strict z key a ttl now o = .ok x) :
+    ∃ t n sp plain, decodeObs strict o = some t ∧ t = .sealed key a Token.callTokenVersion n sp ∧
+      unpackTagged z sp = .ok plain ∧ unpackCallPlain plain = .ok x ∧ ttlCheck .callExpired plain ttl now = .ok () := by
+  unfold openCallObs at h
+  cases hd : decodeObs strict o with
+  | none => rw [hd] at h; cases h
+  | some t =>
+    rw [hd] at h; simp only at h
+    cases ho : openBytes t key a Token.callTokenVersion with
+    | none => rw [ho] at h; cases h
+    | some sp =>
+      rw [ho] at h; simp only at h
+      obtain ⟨n, ht⟩ := openBytes_some ho
+      cases hu : unpackTagged z sp with
+      | ok plain =>
+        rw [hu] at h; simp only at h
+        cases hc : unpackCallPlain plain with
+        | ok r =>
+          rw [hc] at h; simp only at h
+          cases htl : ttlCheck .callExpired plain ttl now with
+          | ok u =>
+            rw [htl] at h; simp only at h
+            cases h
+            exact ⟨t, n, sp, plain, rfl, ht, hu, hc, by cases u; exact htl⟩
+          | reject _ => rw [htl] at h; cases h
+          | missingCall => rw [htl] at h; cases h
+          | decodeError => rw [htl] at h; cases h
+          | crash => rw [htl] at h; cases h
+        | reject _ => rw [hc] at h; cases h
+        | missingCall => rw [hc] at h; cases h
+        | decodeError => rw [hc] at h; cases h
+        | crash => rw [hc] at h; cases h
+      | reject _ => rw [hu] at h; cases h
+      | missingCall => rw [hu] at h; cases h
+      | decodeError => rw [hu] at h; cases h
+      | crash => rw [hu] at h; cases h
+
+theorem fresh_of_ttlCheck {x : Reject} {t : Nat} {rest : Bytes} {ttl : Nat} {now : Int} (ht : t < 256 ^ Token.tsFmtWidth)
+    (h : ttlCheck x (leBytes Token.tsFmtWidth t ++ rest) ttl now = .ok ()) : Fresh ttl now t := by
+  rw [ttlCheck_packed x t rest ttl now ht] at h
+  unfold Fresh
+  by_cases hc : ttl > 0 ∧ now - (t : Int) > (ttl : Int)
+  · rw [if_pos hc] at h; cases h
+  · by_cases h0 : ttl = 0
+    · exact Or.inl h0
+    · right
+      have : ¬ (now - (t : Int) > (ttl : Int)) := fun g => hc ⟨by omega, g⟩
+      omega
+
+/-- **cursor side**: an opened cursor token is a minted one — same text, same identity, unexpired, and the server
+    reads exactly the state and call id it sealed -/
+theorem openCursor_sound {sh : Shape} {E : Wire} {z : Zstd} {srv : Server} {keys : List KeyId} {W : World}
+    {who : Identity} {now : Int} {w : Bytes} {st cid : Bytes}
+    (hz : z.Lawful) (hk : srv.key ∉ keys) (hwf : ∀ cm ∈ W.cursors, cm.WF)
+    (hknown : ∀ t, E.dec w = some t → Known (W.toks sh z srv.key) keys t) (hnf : who.NulFreeDomain)
+    (h : openCursorObs sh.strictB64 z srv.key (aad who) srv.ttl now (E.observe w) = .ok (st, cid)) :
+    ∃ cm ∈ W.cursors, E.dec w = some (cm.tok z srv.key) ∧ (sh.strictB64 = true → w = E.enc (cm.tok z srv.key)) ∧
+      cm.who = who ∧ cm.state = st ∧ cm.callId = cid ∧ Fresh srv.ttl now cm.t := by
+  obtain ⟨t, n, sp, plain, hd, ht, hu, hc, htl⟩ := openCursorObs_ok h
+  obtain ⟨hdec, hcanon⟩ := decodeObs_observe hd
+  have hkn := hknown t hdec
+  subst ht
+  have hmem := known_server_sealed hkn hk
+  rcases mem_toks hmem with ⟨cm, hcm, e⟩ | ⟨km, _, e⟩
+  · refine ⟨cm, hcm, ?_, ?_, ?_⟩
+    · rw [hdec, e]
+    · intro hs; rw [← e]; exact (hcanon hs).symm
+    · unfold CursorMint.tok at e
+      simp only [Tok.sealed.injEq, true_and] at e
+      obtain ⟨ha, _, hp⟩ := e
+      obtain ⟨w1, w2, w3, w4⟩ := hwf cm hcm
+      have hwho : cm.who = who := (aad_inj hnf w4 ha).symm
+      subst hp
+      rw [unpackTagged_pack z hz] at hu
+      cases hu
+      rw [unpackCursorPlain_pack cm.t cm.callId cm.state w1 w3] at hc
+      cases hc
+      exact ⟨hwho, rfl, rfl, fresh_of_ttlCheck w2 htl⟩
+  · unfold CallMint.tok at e
+    simp only [Tok.sealed.injEq, true_and] at e
+    exact absurd e.1 (aad_ne_callAad _ _ _ _)
+
+/-- **call side** -/
+theorem openCall_sound {sh : Shape} {E : Wire} {z : Zstd} {srv : Server} {keys : List KeyId} {W : World}
+    {who : Identity} {m : List Char} {now : Int} {w : Bytes} {cid : Bytes} {body : CallBody}
+    (hz : z.Lawful) (hk : srv.key ∉ keys) (hwf : ∀ km ∈ W.calls, km.WF)
+    (hknown : ∀ t, E.dec w = some t → Known (W.toks sh z srv.key) keys t) (hnf : who.NulFreeDomain) (hnm : NulFree m)
+    (h : openCallObs sh.strictB64 z srv.key (callAad sh.methodBound m who) srv.ttl now (E.observe w) = .ok (cid, body)) :
+    ∃ km ∈ W.calls, E.dec w = some (km.tok sh z srv.key) ∧ (sh.strictB64 = true → w = E.enc (km.tok sh z srv.key)) ∧
+      km.who = who ∧ (sh.methodBound = true → km.method = m) ∧ km.callId = cid ∧ km.body = body ∧ Fresh srv.ttl now km.t := by
+  obtain ⟨t, n, sp, plain, hd, ht, hu, hc, htl⟩ := openCallObs_ok h
+  obtain ⟨hdec, hcanon⟩ := decodeObs_observe hd
+  have hkn := hknown t hdec
+  subst ht
+  have hmem := known_server_sealed hkn hk
+  rcases mem_toks hmem with ⟨cm, _, e⟩ | ⟨km, hkm, e⟩
+  · unfold CursorMint.tok at e
+    simp only [Tok.sealed.injEq, true_and] at e
+    exact absurd e.1.symm (aad_ne_callAad _ _ _ _)
+  · refine ⟨km, hkm, ?_, ?_, ?_⟩
+    · rw [hdec, e]
+    · intro hs; rw [← e]; exact (hcanon hs).symm
+    · unfold CallMint.tok at e
+      simp only [Tok.sealed.injEq, true_and] at e
+      obtain ⟨ha, _, hp⟩ := e
+      obtain ⟨w1, w2, w3, w4, w5⟩ := hwf km hkm
+      have hid : km.who = who ∧ (sh.methodBound = true → km.method = m) := by
+        cases hb : sh.methodBound with
+        | true =>
+          rw [hb] at ha
+          have := callAad_inj_bound hnm w5 hnf w4 ha
+          exact ⟨this.2.symm, fun _ => this.1.symm⟩
+        | false =>
+          rw [hb] at ha
+          exact ⟨(callAad_inj_unbound hnf w4 ha).symm, fun g => by cases g⟩
+      subst hp
+      rw [unpackTagged_pack z hz] at hu
+      cases hu
+      rw [unpackCallPlain_pack km.t km.callId km.body w1 w3] at hc
+      cases hc
+      exact ⟨hid.1, hid.2, rfl, rfl, fresh_of_ttlCheck w2 htl⟩
+
+
+/-! ## the invariant of the token system -/
+
+structure Inv (sh : Shape) (W : World) : Prop where
+  wfc : ∀ cm ∈ W.cursors, cm.WF
+  wfk : ∀ km ∈ W.calls, km.WF
+  /-- call ids are unique (they are fresh 16-byte random values) -/
+  distinct : ∀ a ∈ W.calls, ∀ b ∈ W.calls, a.callId = b.callId → a = b
+  /-- every cursor belongs to a call minted for the same identity (and, when bound, by the same method) -/
+  owner : ∀ cm ∈ W.cursors, ∃ km ∈ W.calls, km.callId = cm.callId ∧ km.who = cm.who ∧
+            (sh.methodBound = true → km.method = cm.method)
+  /-- every cache entry was put for a minted call -/
+  cache : ∀ i cid s e, W.caches i cid s = some e → ∃ km ∈ W.calls, km.callId = cid ∧ cacheIdent km.who = s ∧
+            km.body = e.body ∧ (sh.methodBound = true → km.method = e.method)
+
+/-- what an accepted request is, in terms of the history: the cursor mint `cm` and the call mint `km` behind it -/
+structure SoundFor (sh : Shape) (E : Wire) (z : Zstd) (srv : Server) (r : Req) (acc : Accepted)
+    (cm : CursorMint) (km : CallMint) : Prop where
+  cursorDec : E.dec r.cursor = some (cm.tok z srv.key)
+  cursorText : sh.strictB64 = true → r.cursor = E.enc (cm.tok z srv.key)
+  cursorWho : cm.who = r.who
+  cursorState : cm.state = acc.state
+  cursorCall : cm.callId = acc.callId
+  cursorFresh : Fresh srv.ttl r.now cm.t
+  callId : km.callId = acc.callId
+  callWho : km.who = r.who
+  callBody : km.body = acc.entry.body
+  method : sh.methodBound = true → km.method = r.method ∧ cm.method = r.method ∧ acc.entry.method = r.method
+  miss : acc.hit = false → ∃ cw, r.call = some cw ∧ E.dec cw = some (km.tok sh z srv.key) ∧
+           (sh.strictB64 = true → cw = E.enc (km.tok sh z srv.key)) ∧ Fresh srv.ttl r.now km.t
+
+def Sound (sh : Shape) (E : Wire) (z : Zstd) (srv : Server) (W : World) (r : Req) (acc : Accepted) : Prop :=
+  ∃ cm ∈ W.cursors, ∃ km ∈ W.calls, SoundFor sh E z srv r acc cm km
+
+theorem finishRecover_ok {sh : Shape} {D : Decoders} {r : ReqObs} {st cid : Bytes} {e : CacheEntry} {hit : Bool}
+    {effs0 effs : List Effect} {acc : Accepted}
+    (h : finishRecover sh D r st cid e hit effs0 = (effs, .ok acc)) :
+    acc = ⟨st, cid, e, hit⟩ ∧ (sh.methodBound = true → e.method = r.method) := by
+  unfold finishRecover at h
+  split at h
+  · simp at h
+  · rename_i hc
+    simp only [Prod.mk.injEq] at h
+    obtain ⟨_, h2⟩ := h
+    split at h2
+    · cases h2
+      refine ⟨rfl, ?_⟩
+      intro hb
+      rw [hb] at hc
+      simpa using hc
+    · cases h2
+
+theorem recover_sound {sh : Shape} {E : Wire} {z : Zstd} {D : Decoders} {srv : Server} {keys : List KeyId} {W : World}
+    {i : Nat} {r : Req} {effs : List Effect} {acc : Accepted}
+    (hinv : Inv sh W) (hz : z.Lawful) (hk : srv.key ∉ keys)
+    (hknown : ReqKnown E (W.toks sh z srv.key) keys r) (hnf : r.who.NulFreeDomain) (hnm : NulFree r.method)
+    (h : recover sh E z D srv (W.caches i) r = (effs, .ok acc)) : Sound sh E z srv W r acc := by
+  unfold recover recoverObs at h
+  simp only [Req.observe] at h
+  cases hc : openCursorObs sh.strictB64 z srv.key (aad r.who) srv.ttl r.now (E.observe r.cursor) with
+  | ok x =>
+    obtain ⟨st, cid⟩ := x
+    rw [hc] at h; simp only at h
+    obtain ⟨cm, hcm, c1, c2, c3, c4, c5, c6⟩ := openCursor_sound hz hk hinv.wfc hknown.1 hnf hc
+    obtain ⟨km1, hkm1, o1, o2, o3⟩ := hinv.owner cm hcm
+    cases hl : W.caches i cid (cacheIdent r.who) with
+    | some e =>
+      rw [hl] at h; simp only at h
+      obtain ⟨hacc, hme⟩ := finishRecover_ok h
+      obtain ⟨km0, hkm0, k1, k2, k3, k4⟩ := hinv.cache i cid _ e hl
+      have heq : km0 = km1 := hinv.distinct km0 hkm0 km1 hkm1 (by rw [k1, o1, c5])
+      subst heq
+      subst hacc
+      refine ⟨cm, hcm, km0, hkm0, ?_⟩
+      exact SoundFor.mk c1 c2 c3 c4 c5 c6 k1 (by rw [o2, c3]) k3
+        (fun hb => ⟨by rw [k4 hb]; exact hme hb, by rw [← o3 hb, k4 hb]; exact hme hb, hme hb⟩)
+        (fun hh => by cases hh)
+    | none =>
+      rw [hl] at h; simp only at h
+      unfold resolveCallFromToken at h
+      simp only [Option.map] at h
+      cases hcall : r.call with
+      | none => rw [hcall] at h; simp at h
+      | some cw =>
+        rw [hcall] at h; simp only at h
+        cases ho : openCallObs sh.strictB64 z srv.key (callAad sh.methodBound r.method r.who) srv.ttl r.now (E.observe cw) with
+        | ok y =>
+          obtain ⟨cid', body⟩ := y
+          rw [ho] at h; simp only at h
+          by_cases hpair : cid' = cid
+          · by_cases hdec : D.callDecodes body = true
+            · simp only [hpair, ne_eq, not_true_eq_false, if_false, hdec, if_true] at h
+              obtain ⟨hacc, _⟩ := finishRecover_ok h
+              obtain ⟨km, hkm, d1, d2, d3, d4, d5, d6, d7⟩ :=
+                openCall_sound hz hk hinv.wfk (fun t ht => hknown.2 cw t hcall ht) hnf hnm ho
+              have heq : km = km1 := hinv.distinct km hkm km1 hkm1 (by rw [d5, hpair, o1, c5])
+              subst heq
+              subst hacc
+              refine ⟨cm, hcm, km, hkm, ?_⟩
+              exact SoundFor.mk c1 c2 c3 c4 c5 c6 (by rw [d5, hpair]) d3 d6
+                (fun hb => ⟨d4 hb, by rw [← o3 hb]; exact d4 hb, rfl⟩)
+                (fun _ => ⟨cw, hcall, d1, d2, d7⟩)
+            · simp [hpair, hdec] at h
+          · simp [hpair] at h
+        | reject _ => rw [ho] at h; simp at h
+        | missingCall => rw [ho] at h; simp at h
+        | decodeError => rw [ho] at h; simp at h
+        | crash => rw [ho] at h; simp at h
+  | reject _ => rw [hc] at h; simp at h
+  | missingCall => rw [hc] at h; simp at h
+  | decodeError => rw [hc] at h; simp at h
+  | crash => rw [hc] at h; simp at h
+
+
+theorem inv_empty (sh : Shape) : Inv sh World.empty :=
+  { wfc := by intro cm h; cases h
+    wfk := by intro km h; cases h
+    distinct := by intro a h; cases h
+    owner := by intro cm h; cases h
+    cache := by intro i cid s e h; simp [World.empty] at h }
+
+theorem step_inv {sh : Shape} {E : Wire} {z : Zstd} {D : Decoders} {srv : Server} {keys : List KeyId} {W W' : World}
+    (hz : z.Lawful) (hk : srv.key ∉ keys) (hinv : Inv sh W) (hs : Step sh E z D srv keys W W') : Inv sh W' := by
+  cases hs with
+  | init i km cur hwf hfresh hcur =>
+    refine { wfc := ?_, wfk := ?_, distinct := ?_, owner := ?_, cache := ?_ }
+    · intro cm hcm
+      simp only at hcm
+      rcases List.mem_append.mp hcm with h | h
+      · cases cur with
+        | none => cases h
+        | some c =>
+          obtain ⟨t, st, n⟩ := c
+          simp only [List.mem_singleton] at h
+          subst h
+          have := hcur _ rfl
+          exact ⟨hwf.1, this.1, this.2, hwf.2.2.2.1⟩
+      · exact hinv.wfc cm h
+    · intro k hk'
+      simp only [List.mem_cons] at hk'
+      rcases hk' with h | h
+      · subst h; exact hwf
+      · exact hinv.wfk k h
+    · intro a ha b hb hab
+      simp only [List.mem_cons] at ha hb
+      rcases ha with ha | ha <;> rcases hb with hb | hb
+      · rw [ha, hb]
+      · subst ha; exact absurd hab.symm (hfresh b hb)
+      · subst hb; exact absurd hab (hfresh a ha)
+      · exact hinv.distinct a ha b hb hab
+    · intro cm hcm
+      simp only at hcm
+      rcases List.mem_append.mp hcm with h | h
+      · cases cur with
+        | none => cases h
+        | some c =>
+          obtain ⟨t, st, n⟩ := c
+          simp only [List.mem_singleton] at h
+          subst h
+          exact ⟨km, by simp, rfl, rfl, fun _ => rfl⟩
+      · obtain ⟨k, hk', r⟩ := hinv.owner cm h
+        exact ⟨k, by simp [hk'], r⟩
+    · intro j cid s e hl
+      simp only [setCache] at hl
+      by_cases hj : j = i
+      · rw [if_pos hj] at hl
+        unfold Cache.put at hl
+        split at hl
+        · rename_i hc
+          simp only [Option.some.injEq] at hl
+          subst hl
+          exact ⟨km, by simp, hc.1.symm, hc.2.symm, rfl, fun _ => rfl⟩
+        · obtain ⟨k, hk', r⟩ := hinv.cache i cid s e hl
+          exact ⟨k, by simp [hk'], r⟩
+      · rw [if_neg hj] at hl
+        obtain ⟨k, hk', r⟩ := hinv.cache j cid s e hl
+        exact ⟨k, by simp [hk'], r⟩
+  | turn i r acc effs next hknown hnf hnm hrec hnext =>
+    obtain ⟨cm, hcm, km, hkm, S⟩ := recover_sound hinv hz hk hknown hnf hnm hrec
+    refine { wfc := ?_, wfk := hinv.wfk, distinct := hinv.distinct, owner := ?_, cache := ?_ }
+    · intro c hc
+      simp only at hc
+      rcases List.mem_append.mp hc with h | h
+      · cases next with
+        | none => cases h
+        | some x =>
+          obtain ⟨t, st, n⟩ := x
+          simp only [List.mem_singleton] at h
+          subst h
+          have := hnext _ rfl
+          have w := hinv.wfc cm hcm
+          exact ⟨by rw [← S.cursorCall]; exact w.1, this.1, this.2, hnf⟩
+      · exact hinv.wfc c h
+    · intro c hc
+      simp only at hc
+      rcases List.mem_append.mp hc with h | h
+      · cases next with
+        | none => cases h
+        | some x =>
+          obtain ⟨t, st, n⟩ := x
+          simp only [List.mem_singleton] at h
+          subst h
+          exact ⟨km, hkm, S.callId, S.callWho, fun hb => (S.method hb).1⟩
+      · exact hinv.owner c h
+    · intro j cid s e hl
+      simp only [setCache] at hl
+      by_cases hj : j = i
+      · rw [if_pos hj] at hl
+        cases hh : acc.hit with
+        | true => rw [hh] at hl; simp only [if_true] at hl; exact hinv.cache i cid s e hl
+        | false =>
+          rw [hh] at hl; simp only [Bool.false_eq_true, if_false] at hl
+          unfold Cache.put at hl
+          split at hl
+          · rename_i hc
+            simp only [Option.some.injEq] at hl
+            subst hl
+            refine ⟨km, hkm, ?_, ?_, S.callBody, ?_⟩
+            · rw [S.callId]; exact hc.1.symm
+            · rw [S.callWho]; exact hc.2.symm
+            · intro hb; rw [(S.method hb).1, (S.method hb).2.2]
+          · exact hinv.cache i cid s e hl
+      · rw [if_neg hj] at hl
+        exact hinv.cache j cid s e hl
+  | evict i c hsub =>
+    refine { wfc := hinv.wfc, wfk := hinv.wfk, distinct := hinv.distinct, owner := hinv.owner, cache := ?_ }
+    intro j cid s e hl
+    simp only [setCache] at hl
+    by_cases hj : j = i
+    · rw [if_pos hj] at hl
+      exact hinv.cache i cid s e (hsub cid s e hl)
+    · rw [if_neg hj] at hl
+      exact hinv.cache j cid s e hl
+
+theorem reachable_inv {sh : Shape} {E : Wire} {z : Zstd} {D : Decoders} {srv : Server} {keys : List KeyId} {W : World}
+    (hz : z.Lawful) (hk : srv.key ∉ keys) (h : Reachable sh E z D srv keys W) : Inv sh W := by
+  induction h with
+  | start => exact inv_empty sh
+  | step _ hs ih => exact step_inv hz hk ih hs
+
+
 end VgiVerif.Token
